@@ -18,7 +18,9 @@ WHY = {1: 'transform not finite', 2: 'region without positive finite size', 3: '
        9: 'radial gradient radius not positive finite', 10: 'path with fewer than two segments',
        11: 'path does not start with a move', 12: 'path coordinate not finite',
        13: 'text span not on character boundaries inside its chunk',
-       15: 'tree size not positive finite', 16: 'text spans do not tile their chunk'}
+       15: 'tree size not positive finite', 16: 'text spans do not tile their chunk',
+       17: 'path with two consecutive moves', 18: 'filter primitive parameter out of contract (negative / not finite / out of range)',
+       19: 'feConvolveMatrix order / target / kernel size / divisor out of contract'}
 
 
 # ------------------------------------------------------------------------------------------------
@@ -126,8 +128,19 @@ def filter_term(f):
     prims = []
     for p in f['primitives']:
         sub = []
-        if p['kind'].get('k') == 'Image':
-            sub.append(node_term(p['kind']['root']))
+        kk = p['kind']
+        if kk.get('k') == 'Image':
+            sub.append(node_term(kk['root']))
+        if kk.get('k') in ('GaussianBlur', 'DropShadow'):
+            sub.append('(VFePar 1 %s)' % xlist([kk['sx'], kk['sy']]))
+        elif kk.get('k') == 'Morphology':
+            sub.append('(VFePar 1 %s)' % xlist([kk['rx'], kk['ry']]))
+        elif kk.get('k') == 'Turbulence':
+            sub.append('(VFePar 1 %s)' % xlist([kk['fx'], kk['fy']]))
+        elif kk.get('k') == 'ConvolveMatrix':
+            sub.append('(VFePar 2 %s)' % xlist([kk['cols'], kk['rows'], kk['target_x'], kk['target_y'], len(kk['data']), kk['divisor']]))
+        elif kk.get('k') == 'SpecularLighting':
+            sub.append('(VFePar 3 %s)' % xlist([kk['specular_exponent']]))
         prims.append('(VPrim %s %s)' % (xrect(p['rect']), vlist(sub)))
     return '(VFilter %s %s)' % (xrect(f['rect']), vlist(prims))
 
@@ -883,9 +896,45 @@ def gen_numeric_doc(rng):
     """hand-made templates exercising every clause with extreme magnitudes"""
     E = lambda: rng.choice(EXTREMES)
     T = lambda: rng.choice(TS_EXTREMES)
-    k = rng.below(23)
+    k = rng.below(27)
     FS = lambda: rng.choice(['-4', '0', '1e30', '3e38', '12', '-1e30', '1e-30'])
     DU = lambda: rng.choice(EXTREMES + ['2em', '1ex', '3e38in', '-1em', '2e38em', '3e38mm', '1em'])
+    if k in (23, 24):
+        # path data and basic shapes, degenerate and extreme: what the shape conversion emits must be a valid path or nothing
+        N = lambda: rng.choice(['0', '10', '-5', '3e38', '-3e38', '1e-40', '1e39', '50', '2.5'])
+        D = [
+            'M %s %s' % (N(), N()), 'M %s %s Z' % (N(), N()), 'M 1 1 M %s %s L %s %s' % (N(), N(), N(), N()), 'L %s %s' % (N(), N()),
+            'M 0 0 Z M %s %s' % (N(), N()), 'M 0 0 L %s %s Z Z M 5 5' % (N(), N()), 'Z', 'M 1 1 M 2 2 M 3 3', 'm %s %s l %s %s z l 3 3' % (N(), N(), N(), N()),
+            'M 0 0 Q %s %s 5 5 T %s %s' % (N(), N(), N(), N()), 'M 0 0 A %s %s 0 1 1 %s %s' % (N(), N(), N(), N()), 'M 0 0 H %s V %s' % (N(), N()),
+            'M 0 0 L 10 10 M %s %s' % (N(), N()), 'M %s %s L %s %s L' % (N(), N(), N(), N()), 'M 0 0 C 1 1 2 2 %s %s S %s %s 9 9' % (N(), N(), N(), N()), '']
+        shapes = [
+            '<path d="%s" stroke="black"/>' % rng.choice(D), '<path d="%s" fill="red"/>' % rng.choice(D),
+            '<rect x="%s" y="%s" width="%s" height="%s" rx="%s" stroke="black"/>' % (N(), N(), N(), N(), N()),
+            '<rect width="%s" height="%s" ry="%s"/>' % (N(), N(), N()),
+            '<circle cx="%s" cy="%s" r="%s" stroke="black"/>' % (N(), N(), N()), '<ellipse cx="%s" rx="%s" ry="%s"/>' % (N(), N(), N()),
+            '<line x1="%s" y1="%s" x2="%s" y2="%s" stroke="black"/>' % (N(), N(), N(), N()),
+            '<polyline points="%s" stroke="black"/>' % ' '.join(N() for _ in range(rng.below(7))),
+            '<polygon points="%s %s"/>' % (N(), ' '.join(N() for _ in range(rng.below(6)))),
+            '<clipPath id="c%d"><path d="%s"/></clipPath><rect width="50" height="50" clip-path="url(#c%d)"/>' % (k, rng.choice(D), k)]
+        # (no textPath here: text on a path with coordinates >= 1e16 is C01's known kurbo hang)
+        return '<svg %s width="100" height="100">%s</svg>' % (NS, ''.join(rng.choice(shapes) for _ in range(1 + rng.below(4))))
+    if k in (25, 26):
+        # filter primitive parameters with extreme values (second pass): clamps and guards of parser/filter.rs
+        X = lambda: rng.choice(EXTREMES + ['3', '-1', '0.5', '128', '128.5', '0.99', '3e32', '3e38', '-3e38', '4', '2'])
+        KM = lambda n: ' '.join(rng.choice(['1', '0', '-1', '3e32', '3e38', '-3e38', '1e30', '0.5', '1e-40']) for _ in range(n))
+        o = rng.choice(['3', '2', '1', '0', '-2', '3 2', '2.9', '1e10', '4 1'])
+        n = rng.choice([9, 4, 1, 6, 9, 9])
+        prims = [
+            '<feGaussianBlur stdDeviation="%s %s"/>' % (X(), X()), '<feDropShadow stdDeviation="%s" dx="1"/>' % X(),
+            '<feMorphology radius="%s %s"/>' % (X(), X()), '<feTurbulence baseFrequency="%s %s" numOctaves="%s"/>' % (X(), X(), X()),
+            '<feConvolveMatrix order="%s" kernelMatrix="%s" targetX="%s" targetY="%s"/>' % (o, KM(n), rng.choice(['0', '1', '2', '3', '-1', '1e10']), rng.choice(['0', '1', '2', '5'])),
+            '<feConvolveMatrix order="%s" kernelMatrix="%s" divisor="%s"/>' % (o, KM(n), X()),
+            '<feConvolveMatrix kernelMatrix="%s"/>' % KM(9),
+            '<feSpecularLighting specularExponent="%s" surfaceScale="%s"><feDistantLight/></feSpecularLighting>' % (X(), X()),
+            '<feSpecularLighting specularExponent="%s"><feSpotLight specularExponent="%s" limitingConeAngle="%s"/></feSpecularLighting>' % (X(), X(), X())]
+        pu = rng.choice(['', ' primitiveUnits="objectBoundingBox"'])
+        return ('<svg %s width="100" height="100"><filter id="f"%s>%s</filter><rect x="10" y="10" width="50" height="20" fill="green" filter="url(#f)"/></svg>'
+                % (NS, pu, ''.join(rng.choice(prims) for _ in range(1 + rng.below(3)))))
     if k == 0:
         return ('<svg %s width="100" height="100"><g transform="%s"><g transform="%s"><rect width="%s" height="10" stroke="red" '
                 'stroke-width="%s" stroke-miterlimit="%s" stroke-dasharray="%s %s"/></g></g></svg>' % (NS, T(), T(), E(), E(), E(), E(), E()))
